@@ -57,7 +57,7 @@ pub enum PanicClass {
 
 impl PanicRecord {
     pub fn class(&self) -> PanicClass {
-        let in_harness = self.file.starts_with("/verif/") || self.file.starts_with("src/");
+        let in_harness = self.file.starts_with("/verif/") || self.file.starts_with(&format!("{}/", super::verif_root())) || self.file.starts_with("src/");
         if in_harness {
             return PanicClass::Harness;
         }
@@ -70,9 +70,9 @@ impl PanicRecord {
     }
     /// Site string without line number for known-finding matching, with it for display.
     pub fn site(&self) -> String {
-        format!("{}:{}", self.file.trim_start_matches("/repo/"), self.line)
+        format!("{}:{}", self.file.trim_start_matches(&format!("{}/", super::repo_root())), self.line)
     }
     pub fn file_rel(&self) -> String {
-        self.file.trim_start_matches("/repo/").to_string()
+        self.file.trim_start_matches(&format!("{}/", super::repo_root())).to_string()
     }
 }
